@@ -132,6 +132,55 @@ def _inplace(prog, func, concrete, _seen=None):
     return out
 
 
+
+_NF_SELECTORS = ["/plain.txt", "/100%.txt", "/a%sb", "/%(x)s.txt", "/50% off/{0}", "/%%", "/x%"]
+
+
+def notfound_text_obligations(ctx, rep, rule):
+    """str() of a FileNotFound is total and quotes the selector as it is: evaluated for selectors with format characters,
+    with and without a comment."""
+    from ..paths import Const, PathLimit, Walker
+
+    prog = ctx.prog
+    fnf = ctx.cls("GopherExceptions.FileNotFound")
+    st = prog.resolve_method(fnf, "__str__") if fnf else None
+    if fnf is None:
+        rep.fail(rule, "GopherExceptions.FileNotFound", detail="not-found exception class not found")
+        return
+    if st is None:
+        rep.ok(rule, "FileNotFound has no __str__ of its own (Exception's is total)", ctx.where(fnf), "", key=f"{rule}|str", nontrivial=False)
+        return
+    problems, n = [], 0
+    for sel in _NF_SELECTORS:
+        for com in ("", "no handler found"):
+            w = Walker(prog, ctx.resolver, exact_loops=True, unroll=4, max_paths=300,
+                       inline=lambda fn, t, d: d < 2 and fn.module.name.startswith("pygopherd"))
+            outs = set()
+            try:
+                for p in w.run(st, fnf, facts={"self.selector": Const(sel), "self.comments": Const(com), "self.protocol": Const(None)}):
+                    if p.kind == "raise":
+                        outs.add(("raise", str(p.value)))
+                    elif p.kind == "return" and p.value is not None and p.value.kind == "const" and isinstance(p.value.value, str):
+                        outs.add(("val", p.value.value))
+                    else:
+                        outs.add(("?", ""))
+            except PathLimit:
+                outs = {("?", "")}
+            if len(outs) != 1 or next(iter(outs))[0] == "?":
+                continue
+            n += 1
+            kind, val = next(iter(outs))
+            if kind == "raise":
+                problems.append(f"str(FileNotFound({sel!r}, {com!r})) raises {val}")
+            elif sel not in val or (com and com not in val):
+                problems.append(f"str(FileNotFound({sel!r}, {com!r})) is {val!r}: the selector is not quoted as it is")
+    total = 2 * len(_NF_SELECTORS)
+    rep.add(rule, f"{st.qualname}: total, quotes the selector as it is [{n} of {total} evaluated]", not problems and n >= total // 2, ctx.where(st),
+            "; ".join(problems[:2]) + ("; the exception is logged - and so formatted - in its own constructor: no error reply is ever written for such a selector"
+                                      if problems else "") if problems else ("" if n >= total // 2 else "the walker could not follow the method"),
+            key=f"{rule}|str", nontrivial=n > 0)
+
+
 def check(ctx, rep):
     prog = ctx.prog
     eff = Effects(prog, ctx.resolver)
@@ -163,6 +212,9 @@ def check(ctx, rep):
                 "" if not failing_ else f"for an exception text such as `'100%.txt' does not exist` {failing_[0][1:-1]}: the FileNotFound for an entry with such a name "
                 "cannot even be constructed, and the error that escapes instead is not one the listing loop catches",
                 key="R12h|log-total", nontrivial=texts_ is not None)
+    rep.rule("R12i", "= R03l: the text of a FileNotFound can always be built and quotes the selector as it is (evaluated on selectors with per cent "
+             "signs and braces): the exception formats itself in its own constructor", floor=1)
+    notfound_text_obligations(ctx, rep, "R12i")
     dirbase = ctx.cls("handlers.dir.DirHandler")
     if dirbase is None:
         rep.fail("R12a", "DirHandler", detail="directory handler not found")
